@@ -44,7 +44,7 @@ KERNELS = {
     "C21": ["k_error_and_drop", "k_dest_start"],
     "C26": ["k_str_slice", "k_str_insert", "k_str_index_length"],
     "C29": ["k_math_bounding", "k_math_percentage", "k_math_clamp", "k_find_extreme"],
-    "C28": ["k_index_of", "k_set_nth", "k_append_join", "k_list_separator", "k_list_index"],
+    "C28": ["k_index_of", "k_set_nth", "k_append_join", "k_list_separator", "k_list_index", "k_nth"],
     "C31": ["k_deg_mod"],
     "C32": ["k_deg_mod", "k_lighten_darken", "k_fade", "k_complement_grayscale"],
 }
@@ -409,6 +409,8 @@ STRUCTURAL_PROBES = {
         ("@mixin m($x: 1, $y: $x + 1) { c: $y } a { @include m($x: 4) }", "c: 5"),
         ("$x: 10; @function f($x, $y: $x + 1) { @return $y } a { b: f(1) }", "b: 2"),
     ],
+    "k_nth": [("nth(a b c, 2)", "b"), ("nth(a b c, -1)", "c"), ("inspect(nth((x: 1, y: 2), 2))", "y 2"), ("inspect(nth((x: 1, y: 2), -2))", "x 1"), ("nth(solo, 1)", "solo"),
+              ("nth(solo, -1)", "solo"), ("nth((a, b), 1)", "a"), ("nth([a b], 2)", "b"), ("inspect(nth((a b) (c d), 2))", "c d")],
     "k_list_index": [("inspect(index(a b c, c))", "3"), ("inspect(index(a b a, a))", "1"), ("inspect(index((a: 1, b: 2), b 2))", "2"),
                      ("inspect(index((a: 1, b: 2), b 9))", "null"), ("inspect(index((a: 1, b: 2), x 2))", "null"), ("inspect(index((a: 1, b: 2), (b, 2)))", "null"),
                      ("inspect(index(a, a))", "1"), ("inspect(index(a, b))", "null"), ("inspect(index((a: 1, b: 2), [b 2]))", "null"),
